@@ -62,9 +62,39 @@ def payload(rng, codec):
     if k == 8: return rb(rng, rng.randrange(0, 6))
     return rb(rng, rng.randrange(3, 12))
 
+def rtp_timestamps(rng, n):
+    """RTP timestamps are case data (the caches must go by arrival order, never by this field): monotone, wrapping
+    2^32-k -> small, decreasing, all equal, random"""
+    mode = rng.randrange(5)
+    if mode == 0: return [(1000 + 3000 * i) % (1 << 32) for i in range(n)]
+    if mode == 1:
+        start = (1 << 32) - rng.choice([1, 3000, 9000]) * rng.randrange(1, 4)
+        return [(start + 3000 * i) % (1 << 32) for i in range(n)]
+    if mode == 2: return [(4000000000 - 3000 * i) % (1 << 32) for i in range(n)]
+    if mode == 3: return [rng.randrange(1 << 32)] * n
+    return [rng.randrange(1 << 32) for _ in range(n)]
+
+def param_churn(rng, codec):
+    """parameter sets whose CONTENT changes over time (SPS-A, PPS-A, GOP, SPS-B, PPS-B, GOP ...): which copy a joiner is
+    replayed is visible in the replayed indexes"""
+    out = []
+    for rnd in range(rng.randrange(2, 5)):
+        sets = ([7, 8] if codec == 0 else [32, 33, 34])
+        if rng.random() < 0.3: rng.shuffle(sets)
+        for t in sets:
+            if rng.random() < 0.85: out.append(nal(rng, codec, t=t, n=rng.randrange(2, 9)))
+        out.append(nal(rng, codec, t=(5 if codec == 0 else 19), n=4))
+        for _ in range(rng.randrange(0, 3)): out.append(nal(rng, codec, t=1, n=4))
+    return out
+
 def ccase(rng):
     codec = rng.randrange(2)
-    return [codec, rng.randrange(2), [[rng.choice([0, 0, 0, 0, 1, 2, 3]), payload(rng, codec)] for _ in range(rng.randrange(0, 14))]]
+    if rng.random() < 0.4:
+        pls = [[0, p] for p in param_churn(rng, codec)]
+    else:
+        pls = [[rng.choice([0, 0, 0, 0, 1, 2, 3]), payload(rng, codec)] for _ in range(rng.randrange(0, 14))]
+    tss = rtp_timestamps(rng, len(pls))
+    return [codec, rng.randrange(2), [pl + [t] for pl, t in zip(pls, tss)]]
 
 def ftag(rng):
     k = rng.randrange(10)
@@ -80,7 +110,22 @@ def ftag(rng):
         return [rng.choice([8, 8, 8, 9]), ts, bytes([d0, rng.choice([0, 1])]) + rb(rng, rng.randrange(4))]
     return [rng.choice([8, 9, 18, 0, 31]), ts, rb(rng, rng.randrange(0, 3))]
 
-def fcase(rng): return [rng.randrange(2), [ftag(rng) for _ in range(rng.randrange(0, 14))]]
+def flv_churn(rng):
+    """metadata / sequence headers whose content changes between GOPs, tag timestamps from rtp_timestamps (not monotone)"""
+    tags = []
+    for rnd in range(rng.randrange(2, 5)):
+        hdrs = [[18, bytes([2, 0, 10]) + b"onMetaData" + rb(rng, 3)], [9, bytes([rng.choice([0x17, 0x1c]), 0]) + rb(rng, 4)],
+                [8, bytes([0xaf, 0]) + rb(rng, 2)]]
+        if rng.random() < 0.3: rng.shuffle(hdrs)
+        tags += [h for h in hdrs if rng.random() < 0.85]
+        tags.append([9, bytes([0x17, 1]) + rb(rng, 4)])
+        for _ in range(rng.randrange(0, 3)): tags.append([rng.choice([9, 8]), bytes([rng.choice([0x27, 0xaf]), 1]) + rb(rng, 3)])
+    tss = rtp_timestamps(rng, len(tags))
+    return [[t[0], ts, t[1]] for t, ts in zip(tags, tss)]
+
+def fcase(rng):
+    if rng.random() < 0.35: return [rng.randrange(2), flv_churn(rng)]
+    return [rng.randrange(2), [ftag(rng) for _ in range(rng.randrange(0, 14))]]
 
 def pform(rng, codec):
     k = rng.randrange(3)
@@ -277,7 +322,7 @@ def run(ck):
                         cases.append(join_case(rng, pkts, min(k, len(pkts) - 1), gop, True, flv, h265))
     ck.stream("join-at-every-prefix", cases, "C02_lts", "C02_lts", "C02_ok",
               nontrivial=lambda c: len(c[4]) >= 4, sig=lambda c, e, o: "lts", timeout=1500)
-    return ck.finish(rule="(1) random RTP payloads (single NAL, STAP/AP incl. truncated and zero-size entries, FU with all S/E bits, garbage, "
+    return ck.finish(rule="(1) random RTP payloads and sequences of parameter sets whose content changes between GOPs, every packet with an RTP timestamp chosen by the case (monotone, wrapping past 2^32, decreasing, equal, random) (single NAL, STAP/AP incl. truncated and zero-size entries, FU with all S/E bits, garbage, "
                           "non-video channels) and FLV tags (full frame-type/codec nibbles, near-miss onMetaData) through the real "
                           "H264Cache/HevcCache/FlvCache CachePack+PushTo; (2) legal packetisations produced by the Gallina packetiser; "
                           "(2c) FLV tag streams with source timestamps far from 0 published to a real FlvCache while 1-2 earlier viewers (real flv.Writer consumers sharing the tag objects) write some of them; a joiner attaches after every prefix; its replay (index, timestamp, data; read at the join and again at the end) against the cache specification over the published tags, published tags unchanged; "
